@@ -248,6 +248,14 @@ AtPositions(P, res) ==
 \* range_lookup TRUE = MATCH type 1, FALSE = MATCH type 0 (with wildcards)
 TypeOf(approx) == IF approx THEN 1 ELSE 0
 
+\* A result index (row / column number) given with a fraction, n/d, is read
+\* as its whole part: Excel truncates, VLOOKUP(v, T, 2.9) answers from column
+\* 2 and an index between 0 and 1 is the index 0.  The harness calls every
+\* lookup with the index k and with k + 1/2 and demands the same answer.
+WholePart(n, d) == IF n >= 0 THEN n \div d ELSE -((-n) \div d)
+ASSUME WholePart(29, 10) = 2 /\ WholePart(1, 2) = 0 /\ WholePart(-1, 2) = 0
+       /\ WholePart(7, 2) = 3
+
 \* a lookup with a result index k outside 1..n yields #REF!/#VALUE!, whatever
 \* the lookup value is (also when nothing would be found: the statement says
 \* "out-of-range indices yield #REF!/#VALUE!", and so does Excel)
